@@ -2441,13 +2441,16 @@ func MatchAndPopulateNamedGroups(str string, rexExp *regexp.Regexp,
 	}
 
 	for i, name := range names {
+		if i == 0 || name == "" {
+			// The whole match and unnamed groups create no column. (A column named
+			// "" used to be added, and only to batches that contain a match.)
+			continue
+		}
 		if newColValues[name] == nil {
 			newColValues[name] = make([]sutils.CValueEnclosure, numItems)
 		}
-		if i != 0 && name != "" {
-			newColValues[name][idx].Dtype = sutils.SS_DT_STRING
-			newColValues[name][idx].CVal = match[i]
-		}
+		newColValues[name][idx].Dtype = sutils.SS_DT_STRING
+		newColValues[name][idx].CVal = match[i]
 	}
 
 	return nil
